@@ -1405,8 +1405,10 @@ Qed.
         one or the call's;
    (F3) a store_metadata that raises leaves the document as it was;
    (F2) the call returns and no lock is left, for every fault plan that never fails the flock.
-   MISSING: (F2) when the flock itself fails; (F3) "success => the permanent files are those of the
-   fault-free run"; (F4) after a failed store_object / tag_object under a ONE-OFF fault the pid is
+   "Success => the permanent files are those of the fault-free run" is proved in FaultSuccess.v
+   (one-off faults: every call; persistent faults: every call but delete_object /
+   delete_metadata(pid, None)).
+   MISSING: (F2) when the flock itself fails; (F4) after a failed store_object / tag_object under a ONE-OFF fault the pid is
    unbound and can be stored again, or its earlier binding is intact (proved for the menu only;
    FALSE for persistent faults, witness above); the follow-up clauses of [fault_outcome_ok]. *)
 Theorem C13_general_partial :
